@@ -40,6 +40,12 @@ never re-inserted with the same scope: deletions are of closed scopes, insertion
 `purge` takes the shard's WRITE lock: enabled only when `reg.readers = []`; every registered scope gets
 `closed := true`, is cleared (its cell goes to `dropped`) and unregistered, in one step.
 
+Concurrent `Close` calls (repair D17).  A call that loses the CAS goes to `waitWinner` (`<-s.closeDone`) and can
+return nil (`returnedNil`) only once `closeDone = true`; the winning call sets `closeDone` in its last step
+(`reporterClose → returned r`: the deferred `close(s.closeDone)` runs as it returns, after the reporter's `Close`).
+So every call that has returned has returned after the complete shutdown
+(`C08Life.life_every_close_call_is_a_barrier`).
+
 Tokens.  `Registry.Token.pre` = "recorded before the SUBSCOPE's Close".  The ghost list `preRoot` holds the ids of
 the tokens recorded while `rootClosed = false`.  A token counts for the root's barrier iff
 `tok.pre ∧ tok.id ∈ preRoot` (`Barrier`).
@@ -72,7 +78,8 @@ inductive CPc
   | flushPc                 -- registry purged; about to call the final `Flush`
   | reporterClose           -- final flush done; about to close the reporter if it is an `io.Closer`
   | returned (err : Option Nat)   -- the winning call returned `err`
-  | returnedNil             -- CAS failed: returned nil
+  | returnedNil             -- CAS failed, the winning call has returned: returned nil
+  | waitWinner              -- CAS failed; at `<-s.closeDone` (blocked until the winning call has returned)
 deriving Repr, DecidableEq
 
 structure State where
@@ -88,6 +95,7 @@ structure State where
   preRoot : List Nat                -- ghost: ids of the tokens recorded while `rootClosed = false`
   snap : List (Nat × Nat)           -- ghost: the map as it was when the final pass took its read lock
   winner : Option Nat               -- ghost: the call whose CAS succeeded
+  closeDone : Bool                  -- `closeDone` channel closed (the winning `Close` call has returned)
 
 def loopTid : Nat := 0
 def closerTid (call : Nat) : Nat := 1000 + call
@@ -97,7 +105,8 @@ def isApp (t : Nat) : Bool := decide (0 < t) && decide (t < 1000)
 def init (san : Nat → Nat) (hasLoop closable : Bool) (err : Option Nat := none) : State :=
   { reg := Registry.initRoot san, rootClosed := false, doneClosed := false, purged := false,
     closable := closable, err := err, loop := if hasLoop then .waiting else .exited,
-    closers := fun _ => .start, log := [], preRoot := [], snap := [], winner := none }
+    closers := fun _ => .start, log := [], preRoot := [], snap := [], winner := none,
+    closeDone := false }
 
 inductive Ev
   | record (sid : Nat)            -- one atomic increment on a handle of scope `sid`
@@ -192,7 +201,7 @@ def step (san : Nat → Nat) (s : State) : Ev → Option State
   | .closer t c =>
     match s.closers t with
     | .start =>
-      if s.rootClosed then some (setC s t .returnedNil)
+      if s.rootClosed then some (setC s t .waitWinner)              -- CAS failed: no return yet
       else
         match Registry.step san s.reg (.close 0) with
         | none => none
@@ -210,10 +219,12 @@ def step (san : Nat → Nat) (s : State) : Ev → Option State
     | .flushPc => some { setC s t .reporterClose with log := .flush s.reg.delivered.length :: s.log }
     | .reporterClose =>
       if s.closable then
-        some { setC s t (.returned s.err) with log := .reporterClose s.reg.delivered.length :: s.log }
-      else some (setC s t (.returned none))
+        some { setC s t (.returned s.err) with log := .reporterClose s.reg.delivered.length :: s.log,
+                                               closeDone := true }
+      else some { setC s t (.returned none) with closeDone := true }
     | .returned _ => none
     | .returnedNil => none
+    | .waitWinner => if s.closeDone then some (setC s t .returnedNil) else none     -- `<-s.closeDone`
   | .closerEnd t =>
     match s.closers t with
     | .pass =>
@@ -285,10 +296,12 @@ structure View where
   closers : List CPc
   log : List LogEv
   preRoot : List Nat
+  closeDone : Bool
 deriving Repr, DecidableEq
 
 def State.view (s : State) (n : Nat) : View :=
   { reg := s.reg, rootClosed := s.rootClosed, doneClosed := s.doneClosed, purged := s.purged, loop := s.loop,
-    closers := (List.range n).map s.closers, log := s.log, preRoot := s.preRoot }
+    closers := (List.range n).map s.closers, log := s.log, preRoot := s.preRoot,
+    closeDone := s.closeDone }
 
 end Tally.ScopeLife
